@@ -79,7 +79,8 @@ class Ctx:
                 replay={"kind": "model", "module": module, "config": name, "constants": constants or {},
                         "counterexample": res.error_trace}))
         elif coverage and required_actions:
-            missing = [a for a in required_actions if res.coverage.get(a, (0, 0))[1] == 0]
+            missing = [a for a in required_actions if res.coverage.get(a, (0, 0))[1] == 0
+                       and not (a.startswith("Do") and res.coverage.get(a[2:], (0, 0))[1] > 0)]
             if missing:
                 raise T.MachineryError(f"vacuous model run {module}/{name}: actions never taken: {missing}")
         return res
